@@ -104,7 +104,9 @@ def apply(I, st, f, args, kw, frame, node):
             fake = ast.FunctionDef(name='<lambda>', args=lam.args, body=[ast.Return(value=lam.body)], decorator_list=[], returns=None)
             ast.copy_location(fake, lam)
             ast.fix_missing_locations(fake)
-            return I.run_fn(st, None, f.mod, fake, None, args, kw, frame.depth + 1, node)
+            return I.run_fn(st, f.cls, f.mod, fake, None, args, kw, frame.depth + 1, node, closure=f.closure)
+        if f.closure is not None:
+            return I.run_fn(st, f.cls, f.mod, f.fn, None, args, kw, frame.depth + 1, node, closure=f.closure)
         if len(args) == 1 and not kw and is_number_formatter(I, f):
             # pure rendering of one number as text: kept symbolic (the helper's own body is analysed by C07)
             return [(st, Cat([('fmt', args[0], '', 'fn:%s' % f.fn.name)]))]
